@@ -59,6 +59,25 @@ func drawWorkload(t *core.Tape, kind int) wlInput {
 	case 3: // truncate
 		d = d[:t.Draw(len(d)+1)]
 	}
+	if t.Chance(1, 5) {
+		// insert runes of every UTF-8 width and several categories at tape-chosen positions
+		d = append([]byte{}, d...)
+		for k := 1 + t.Draw(3); k > 0; k-- {
+			r := interestingRunes[t.Draw(len(interestingRunes))]
+			at := t.Draw(len(d) + 1)
+			d = append(d[:at:at], append([]byte(string(r)), d[at:]...)...)
+		}
+	}
+	if t.Chance(1, 40) {
+		// large input: several kilobytes (thresholds such as the 4 KiB default buffers)
+		rep := t.Pick(4096, 5000, 9000, 20000)/(len(d)+1) + 1
+		sep := []string{"", " ", "\n", ";\n"}[t.Draw(4)]
+		big := make([]byte, 0, rep*(len(d)+2))
+		for i := 0; i < rep; i++ {
+			big = append(append(big, d...), sep...)
+		}
+		d = big
+	}
 	in.data = d
 	return in
 }
@@ -89,6 +108,28 @@ func deepInput(lang, depth int) []byte {
 		b = append(b, cl...)
 	}
 	return b
+}
+
+var interestingRunes = []rune{'a', 'Z', '_', '$', '0', ' ', '\n', '"', '\'', '\\', '/', '<', '&', 0xE9, 0xDF, 0x3A3, 0x1E9, 0x663, 0x200C, 0x2028, 0x20AC, 0x3042, 0x6F22, 0xFEFF, 0xFFFD, 0x10000, 0x1D400, 0x1D7D8, 0x1F600, 0x20000, 0x2FA1D, 0xE0100, 0x10FFFF}
+
+// sameLengthDecoy returns different content of exactly the same length and line structure shifted.
+func sameLengthDecoy(d []byte) []byte {
+	o := make([]byte, len(d))
+	for i, c := range d {
+		switch {
+		case c == '\n':
+			o[i] = ' '
+		case c == ' ' && i%3 == 0:
+			o[i] = '\n'
+		case c >= 'a' && c <= 'z':
+			o[i] = c - 32
+		case c >= 'A' && c <= 'Z':
+			o[i] = c + 32
+		default:
+			o[i] = c
+		}
+	}
+	return o
 }
 
 func firstDiff(a, b []byte) string {
@@ -197,6 +238,9 @@ func RunC20(ctx *core.Ctx) *core.Violation {
 		if t.Chance(1, 3) {
 			d := drawWorkload(t, ins[i].kind)
 			d.opt = ins[i].opt
+			if t.Chance(1, 2) {
+				d.data = sameLengthDecoy(ins[i].data) // same address AND same length as the real input
+			}
 			decoy1[i] = &d
 			ctx.Count("probe_decoy_before_real")
 		}
